@@ -324,10 +324,14 @@ impl State {
 
     // With append, the file with the latest timestamp is continued; without append, a new file
     // is started, which must not replace a file that was written in the same second.
-    fn infix_for_new_direct_file(&self, ts: &DateTime<Local>, fmt: &InfixFormat) -> String {
+    fn infix_for_new_direct_file(
+        &self,
+        ts: &DateTime<Local>,
+        fmt: &InfixFormat,
+    ) -> std::io::Result<String> {
         let infix = infix_from_timestamp(ts, self.config.use_utc, fmt);
         if self.config.append {
-            infix
+            Ok(infix)
         } else {
             self.config
                 .file_spec
@@ -344,14 +348,14 @@ impl State {
         let (naming_state, infix) = match rotate_config.naming {
             Naming::TimestampsDirect => {
                 let ts =
-                    latest_timestamp_file(&self.config, !self.config.append, &InfixFormat::Std);
+                    latest_timestamp_file(&self.config, !self.config.append, &InfixFormat::Std)?;
                 (
                     NamingState::Timestamps {
                         current_timestamp: ts,
                         the_current_infix: None,
                         infix_format: InfixFormat::Std,
                     },
-                    self.infix_for_new_direct_file(&ts, &InfixFormat::Std),
+                    self.infix_for_new_direct_file(&ts, &InfixFormat::Std)?,
                 )
             }
             Naming::Timestamps => (
@@ -388,8 +392,8 @@ impl State {
                     (naming_state, current_infix)
                 } else {
                     let fmt = InfixFormat::custom(ts_fmt);
-                    let ts = latest_timestamp_file(&self.config, !self.config.append, &fmt);
-                    let infix = self.infix_for_new_direct_file(&ts, &fmt);
+                    let ts = latest_timestamp_file(&self.config, !self.config.append, &fmt)?;
+                    let infix = self.infix_for_new_direct_file(&ts, &fmt)?;
                     (
                         NamingState::Timestamps {
                             current_timestamp: ts,
@@ -409,7 +413,7 @@ impl State {
                 CURRENT_INFIX.to_string(),
             ),
             Naming::NumbersDirect => {
-                let idx = match numbers::get_highest_index(&self.config.file_spec) {
+                let idx = match numbers::get_highest_index(&self.config.file_spec)? {
                     None => 0,
                     Some(idx) => {
                         if self.config.append {
@@ -500,9 +504,13 @@ impl State {
                             current_infix.clone()
                         } else {
                             *ts = Local::now();
-                            self.config.file_spec.collision_free_infix_for_rotated_file(
-                                &infix_from_timestamp(ts, self.config.use_utc, fmt),
-                            )
+                            self.config
+                                .file_spec
+                                .collision_free_infix_for_rotated_file(&infix_from_timestamp(
+                                    ts,
+                                    self.config.use_utc,
+                                    fmt,
+                                ))?
                         }
                     }
                     NamingState::NumbersRCurrent(ref mut idx_state) => {
@@ -582,7 +590,10 @@ impl State {
         Ok(())
     }
 
-    pub(crate) fn existing_log_files(&self, selector: &LogfileSelector) -> Vec<PathBuf> {
+    pub(crate) fn existing_log_files(
+        &self,
+        selector: &LogfileSelector,
+    ) -> std::io::Result<Vec<PathBuf>> {
         list_and_cleanup::existing_log_files(
             &self.config.file_spec,
             self.inner.uses_rotation(),
